@@ -97,7 +97,8 @@ def run(w: World, rep: Report):
         if fi.module.name in ('tools',) and fi.name == 'repl':
             continue
         if eng.touches_flag(fi):
-            ok = fi.key in DRIVERS or (w.is_handler(fi) and fi.name in relevant_ops)
+            ok = fi.key in DRIVERS or (w.is_handler(fi) and (eng._reaches_run_tape(fi)
+                                                             or fi is eng.ret_handler))
             rep.check('C06.R1c', f'{fi.key}|touches-flag', ok, line=fi.node.lineno,
                       file=repo.rel(fi.module.path),
                       why='' if ok else 'function outside the sub-tape constructs reads or writes the return flag')
